@@ -562,7 +562,68 @@ fn run_assign(sym: &str, args: &[P]) -> String {
     out
 }
 
+// ---- C04 file structure: `F:load:<hex(path)>` dumps the function table the REAL loader builds from a file;
+// `F:build:<spec>` dumps the table the REAL in-memory packaging (MScriptFileBuilder::add_function) builds.
+// dump = label entries sorted by label, joined by "/": hex6(label);opcode,hex6(arg),..;opcode..
+fn f_hex6(s: &str) -> String {
+    if s.is_empty() { "-".to_string() } else { s.chars().map(|c| format!("{:06x}", c as u32)).collect() }
+}
+fn f_dehex6(h: &str) -> String {
+    if h == "-" { return String::new(); }
+    (0..h.len() / 6).map(|i| char::from_u32(u32::from_str_radix(&h[6 * i..6 * i + 6], 16).unwrap()).unwrap()).collect()
+}
+fn f_dump(file: &std::rc::Rc<crate::file::MScriptFile>) -> String {
+    let Some(fs) = file.get_functions_ref() else { return "NOFUNCTIONS".to_string() };
+    let mut names: Vec<String> = fs.map.keys().cloned().collect();
+    names.sort();
+    let parts: Vec<String> = names.iter().map(|n| {
+        let f = fs.map.get(n).unwrap();
+        let mut s = format!("{}:{}", f_hex6(n), f_hex6(f.name()));
+        for ins in f.verif_instructions().iter() {
+            s.push(';');
+            s.push_str(&ins.id.to_string());
+            for a in ins.arguments.iter() {
+                s.push(',');
+                s.push_str(&f_hex6(a));
+            }
+        }
+        s
+    }).collect();
+    format!("OK {}", if parts.is_empty() { "EMPTY".to_string() } else { parts.join("/") })
+}
+fn run_file_kernel(rest: &str) -> String {
+    if let Some(h) = rest.strip_prefix("load:") {
+        let path: String = (0..h.len() / 2).map(|i| u8::from_str_radix(&h[2 * i..2 * i + 2], 16).unwrap() as char).collect();
+        return match crate::file::MScriptFile::open(std::rc::Rc::new(path)) {
+            Ok(f) => { let s = f_dump(&f); std::mem::forget(f); s }
+            Err(_) => "ERR".to_string(),
+        };
+    }
+    if let Some(spec) = rest.strip_prefix("build:") {
+        let mut b = crate::file::MScriptFileBuilder::new("mem.mmm".to_string());
+        for f in spec.split('/') {
+            let mut parts = f.split(';');
+            let name = f_dehex6(parts.next().unwrap());
+            let ins: Vec<crate::instruction::Instruction> = parts.filter(|p| !p.is_empty()).map(|i| {
+                let mut t = i.split(',');
+                let op: u8 = t.next().unwrap().parse().unwrap();
+                let args: Vec<String> = t.map(f_dehex6).collect();
+                crate::instruction::Instruction::new(op, args.into_boxed_slice())
+            }).collect();
+            b.add_function(name, ins.into_boxed_slice());
+        }
+        let f = b.build();
+        let s = f_dump(&f);
+        std::mem::forget(f);
+        return s;
+    }
+    "BADOP".to_string()
+}
+
 pub fn eval_ext(op: &str, args: &[P]) -> String {
+    if let Some(rest) = op.strip_prefix("F:") {
+        return run_file_kernel(rest);
+    }
     if let Some(sym) = op.strip_prefix("A:") {
         let s = match sym { "add" => "+", "sub" => "-", "mul" => "*", "div" => "/", "rem" => "%", _ => panic!("assign op {sym}") };
         return run_assign(s, args);
